@@ -82,11 +82,8 @@ Fixpoint ainsert (k : N) (v : V) (l : list (N * V)) : list (N * V) :=
       else if k =? k' then (k, v) :: t
       else (k', v') :: ainsert k v t
   end.
-Fixpoint aremove (k : N) (l : list (N * V)) : list (N * V) :=
-  match l with
-  | [] => []
-  | (k', v') :: t => if k =? k' then t else (k', v') :: aremove k t
-  end.
+Definition aremove (k : N) (l : list (N * V)) : list (N * V) :=
+  filter (fun p => negb (fst p =? k)) l.
 End Assoc.
 
 (* sorted sets of N (BitSet / BTreeSet as far as the model cares) *)
